@@ -982,3 +982,8 @@ def flags_rule(ctx: Ctx, rep: Report, h: Func) -> None:
             rep.violation(h.qualname, snippet(p.ret), f"flag cover is not bottom ⊆ top ({kind}: {snippet(rx_, 40)} vs {snippet(ry, 40)})", where(h))
     if not found:
         rep.violation(h.qualname, "cover test", "no set-inclusion test decides the flag cover", where(h))
+
+
+# what the later rounds (seeding rounds 2-5, refactor twins, defect hunt) added to what the check decides
+LATER_ROUNDS = "a refused assignment to an option, address or port expression of an entry leaves text and cover sets in agreement, members follow the group name, `any` is typed only under the test that means it"
+EXPLANATION = EXPLANATION.replace(" Does not decide", " Later rounds added: " + LATER_ROUNDS + ". Does not decide", 1) if " Does not decide" in EXPLANATION else EXPLANATION + " Later rounds added: " + LATER_ROUNDS + "."
